@@ -13,6 +13,11 @@ flag-toggle / predict histories, against
 
 Values are dyadic, so the sums inside `np.mean` / `np.var` are exact; the final division is compared
 at 1e-12 relative, and *exactly* when the sample count of the design is a power of two.
+
+Aliasing dimension (R): the observation array of every add_sample call is a slice of one preallocated
+buffer that is refilled for the next call, and it, the index array/list and every array returned by
+predict are overwritten with garbage right after the call; predictions must still be the statistics of
+the values at the time of the call (`aliasing:add_sample-input`, `aliasing:predict-output`).
 """
 from fractions import Fraction
 
@@ -257,7 +262,65 @@ def _near(x, ref, scale, exact):
     return abs(fx - ref) <= TOL * max(1, scale)
 
 
+class _Probe:
+    """ctx stand-in for one execution: captures the first violation instead of reporting it; counters
+    and notes are forwarded only when `forward` is set (the aliasing re-runs are silent)."""
+
+    def __init__(self, ctx, forward):
+        self._ctx, self._fw, self.failed = ctx, forward, None
+
+    def ask(self, *a):
+        return self._ctx.ask(*a)
+
+    def count(self, key, k=1):
+        if self._fw:
+            self._ctx.count(key, k)
+
+    def info(self, msg):
+        if self._fw:
+            self._ctx.info(msg)
+
+    def violation(self, key, what, case, kind="R", detail=None):
+        if self.failed is None:
+            self.failed = (key, what, kind, detail)
+
+
+GARBAGE = 977.125
+
+
 def _execute(ctx, case, ops, tag=""):
+    """One history with the aliasing dimension switched on: (a) every array handed to add_sample (the
+    observation buffer — one preallocated array refilled for each call — and an index array / list) is
+    overwritten with garbage right after the call, (b) every array returned by predict is overwritten
+    after it has been copied.  If that run violates the property it is repeated silently without (a)/(b)
+    to tell an aliasing defect (keys `aliasing:add_sample-input`, `aliasing:predict-output`) from an
+    ordinary one."""
+    pr = _Probe(ctx, True)
+    r = _execute_raw(pr, case, ops, tag, scrub=True, mutate=True)
+    if pr.failed is None:
+        return r
+    key, what, kind, detail = pr.failed
+    if kind == "R":
+        plain = _Probe(ctx, False)
+        _execute_raw(plain, case, ops, tag, scrub=False, mutate=False)
+        if plain.failed is None:
+            only_in = _Probe(ctx, False)
+            _execute_raw(only_in, case, ops, tag, scrub=True, mutate=False)
+            if only_in.failed is not None:
+                key2 = "aliasing:add_sample-input"
+                what2 = ("the model keeps a reference to an array passed to add_sample: overwriting the caller's "
+                         "buffer after the call changes a later prediction (" + what + ")")
+            else:
+                key2 = "aliasing:predict-output"
+                what2 = ("the model hands out its internal arrays from predict: overwriting a returned array "
+                         "changes a later prediction (" + what + ")")
+            ctx.violation(key2, what2, case, kind="R", detail={"first_failure": key, "detail": detail})
+            return None
+    ctx.violation(key, what, case, kind=kind, detail=detail)
+    return None
+
+
+def _execute_raw(ctx, case, ops, tag, scrub, mutate):
     """Run one history on the real class, the Lean state machine (F) and the accumulator (R).
     Returns the list of (idx, means, covs) of the successful predictions."""
     from vopy.models import EmpiricalMeanVarModel
@@ -278,6 +341,7 @@ def _execute(ctx, case, ops, tag=""):
     tokens, lean_ops, preds = [], [], []
     nontrivial = False
     stat_cache = {}
+    buf = np.full((64, m), GARBAGE)
 
     def stat(samples):
         key = core.qmat(samples)
@@ -314,12 +378,30 @@ def _execute(ctx, case, ops, tag=""):
                 cls = "clean"
             ctx.count("add_" + cls)
             ctx.count("container_" + op["kind"])
+            if scrub and Yarr.dtype != object and Yarr.ndim == 2 and Yarr.shape[0] <= len(buf) \
+                    and Yarr.shape[1] == m:
+                buf[:len(Yarr)] = Yarr          # the caller's single observation buffer, refilled each call
+                Yarr = buf[:len(Yarr)]
+                ctx.count("add_from_reused_buffer")
             try:
                 model.add_sample(cont, Yarr)
                 tok = "ok"
             except Exception as e:
                 tok = type(e).__name__
                 err = e
+            if scrub:                           # the caller reuses its arrays: fill them with garbage
+                if Yarr.dtype == object:
+                    for a_ in Yarr:
+                        a_.fill(GARBAGE)
+                else:
+                    Yarr.fill(GARBAGE)
+                buf.fill(GARBAGE)
+                if isinstance(cont, np.ndarray):
+                    cont.fill(0)
+                elif isinstance(cont, list):
+                    cont[:] = [0] * len(cont)
+                elif isinstance(cont, set):
+                    cont.clear()
             tokens.append((tok, cls))
             if cls == "clean":
                 if tok != "ok":
@@ -389,7 +471,12 @@ def _execute(ctx, case, ops, tag=""):
                 tokens.append((tok, "predict-undetermined"))
                 ctx.count("predict_raises_" + tok)
                 continue
-            mu, cov = np.asarray(mu), np.asarray(cov)
+            mu_raw, cov_raw = mu, cov
+            mu, cov = np.array(mu, copy=True), np.array(cov, copy=True)
+            if mutate:                          # the caller scribbles over what predict returned
+                for a_ in (mu_raw, cov_raw):
+                    if isinstance(a_, np.ndarray) and a_.flags.writeable and a_.dtype != object:
+                        a_.fill(GARBAGE)
             tokens.append(("ok", "predict", mu, cov, must_work))
             preds.append((list(idx), mu, cov))
             if not must_work:
